@@ -37,7 +37,7 @@ def main(tier: str) -> int:
         dims = problems_dict[pid]["dimentions"]
         ds = [d for d in DIMS_ROT if d in dims]
         if isinstance(dims, range):
-            ds = sorted(set(ds + [3, 7]))
+            ds = sorted(set(ds + [3, 4, 5, 7, 8, 12, 16]))
         if tier == "quick":
             ds = [d for d in ds if d <= 30]
         for D in ds:
